@@ -141,7 +141,13 @@ class Jpeg:
 
 
 # ---------------------------------------------------------------- reference resolution --
-FOLD = z3.Function("resolve_fold", SS, SS)        # fold of the segment list: "" and "." dropped, ".." pops (dropped at the root)
+# fold of the first i segments of a segment list: "" and "." dropped, ".." pops (dropped at the root).  Indexed by the number of
+# segments processed (not by a prefix term): the VCs of the segment loop then contain no sub-sequence terms at all.
+FOLDP = z3.Function("resolve_fold_first", SS, I, SS)
+
+
+def FOLD(p):
+    return FOLDP(p, z3.Length(p))
 
 
 def step(acc, x):
@@ -151,9 +157,9 @@ def step(acc, x):
 
 
 def fold_defn(p, i):
-    """Definition of FOLD over prefixes: FOLD(p[:0]) = [], FOLD(p[:i+1]) = step(FOLD(p[:i]), p[i]) for 0 <= i < |p|."""
-    return z3.And(FOLD(z3.Empty(SS)) == z3.Empty(SS),
-                  z3.Implies(z3.And(i >= 0, i < z3.Length(p)), FOLD(z3.SubSeq(p, 0, i + 1)) == step(FOLD(z3.SubSeq(p, 0, i)), p[i])))
+    """Definition of the fold by the number of processed segments: FOLDP(p, 0) = [], FOLDP(p, i+1) = step(FOLDP(p, i), p[i]) for 0 <= i < |p|."""
+    return z3.And(FOLDP(p, z3.IntVal(0)) == z3.Empty(SS),
+                  z3.Implies(z3.And(i >= 0, i < z3.Length(p)), FOLDP(p, i + 1) == step(FOLDP(p, i), p[i])))
 
 
 def segments_of(base, target):
